@@ -495,11 +495,11 @@ class ChainedDiscretizer(BaseDiscretizer):
         DataFrame
             A formatted copy of X
         """
-        # copying dataframe
-        x_copy = X.copy()
-
         # checking for binary target and previous fit
-        x_copy = super()._prepare_data(x_copy, y)
+        x_copy = super()._prepare_data(X, y)
+
+        # copying dataframe
+        x_copy = x_copy.copy()
 
         # checking for ids (unique value per row)
         max_frequencies = x_copy[self.features].apply(
